@@ -396,3 +396,43 @@ def conversion_of(F, e: Event, paths: List[Path], exc_names: List[str]) -> Tuple
                 return ('swallowed' if 'continues' in outcomes else 'other',
                         'handler for %s %s' % ('/'.join(q for _, q in types), ', '.join(sorted(outcomes))))
     return ('unguarded', 'no enclosing handler catches %s' % '/'.join(exc_names))
+
+
+def scope_bindings(arg, events):
+    """The (key term, value term) pairs of a scope dict handed to make_scope/push_scope, or None when the argument is not a
+    dict that was built for the purpose (a fresh display / comprehension / dict(zip(...)) / an empty dict filled by stores)."""
+    arg = freeze(arg)
+    base = arg
+    while isinstance(base, tuple) and base and base[0] == 'phi':
+        base = base[3]
+    if not (isinstance(base, tuple) and base):
+        return None
+    pairs = []
+    if base[0] == 'comp' and base[1] == 'dict' and isinstance(base[2], tuple) and base[2][:1] == ('kv',):
+        pairs.append((base[2][1], base[2][2]))
+    elif base[0] == 'dict':
+        for it in base[1:]:
+            if isinstance(it, tuple) and it and it[0] == 'dstar':
+                return None
+            pairs.append((it[0], it[1]))
+    elif base[0] == 'call' and base[2] == ('ref', 'builtin', 'dict') and len(base[3]) <= 1:
+        if base[3]:
+            z = base[3][0]
+            if isinstance(z, tuple) and z[:1] == ('call',) and z[2] == ('ref', 'builtin', 'zip') and len(z[3]) == 2:
+                pairs.append((('elem', z[3][0], 0), ('elem', z[3][1], 0)))
+            elif isinstance(z, tuple) and z[:1] == ('comp',) and isinstance(z[2], tuple) and z[2][:1] == ('tuple',) and len(z[2]) == 3:
+                pairs.append((z[2][1], z[2][2]))
+            else:
+                return None
+    else:
+        return None
+    # entries added by subscript stores (a dict filled in a loop)
+    for e in events:
+        if e.kind == 'store_sub':
+            o = freeze(e.obj)
+            ob = o
+            while isinstance(ob, tuple) and ob and ob[0] == 'phi':
+                ob = ob[3]
+            if o == arg or (arg != base and o == base) or (ob == base and base[0] in ('dict',) and o[:1] == ('phi',) and arg[:1] == ('phi',) and o[1:3] == arg[1:3]):
+                pairs.append((freeze(e.index), freeze(e.value)))
+    return pairs
